@@ -12,6 +12,9 @@ import (
 // vMultiChunkGrow: message payloads (and with them chunk sizes) grow along the file instead of being equal.
 var vMultiChunkGrow bool
 
+// vMultiChunkTime, when set, supplies the log time of message i instead of a fresh symbolic value.
+var vMultiChunkTime func(i int) uint64
+
 func vMultiChunk(n, per int, cfg, skip int) (*Writer, []byte, []*Message) {
 	opts := vOptions(cfg|1, skip, int64(32*per-1))
 	sink := &vSink{failAt: -1}
@@ -27,7 +30,13 @@ func vMultiChunk(n, per int, cfg, skip int) (*Writer, []byte, []*Message) {
 		if vMultiChunkGrow {
 			dn = 1 + 8*i // chunk sizes grow along the file (one message per chunk when per == 1)
 		}
-		m := &Message{ChannelID: uint16(1 + i%2), Sequence: uint32(i), LogTime: vSymU64(vN("t", i)), PublishTime: uint64(i), Data: vSymBytes(vN("d", i), dn, dn)}
+		var lt uint64
+		if vMultiChunkTime != nil {
+			lt = vMultiChunkTime(i)
+		} else {
+			lt = vSymU64(vN("t", i))
+		}
+		m := &Message{ChannelID: uint16(1 + i%2), Sequence: uint32(i), LogTime: lt, PublishTime: uint64(i), Data: vSymBytes(vN("d", i), dn, dn)}
 		if vKnown("C04-K1") {
 			vAssume(m.LogTime != ^uint64(0))
 		}
@@ -115,6 +124,89 @@ func VC03Order() {
 			cnt++
 		}
 		vAssert(cnt == n, "every message returned")
+	}
+	vReach("end")
+}
+
+// C03, heavy ties in long queues: n messages (per per chunk) whose log times are base+pattern(i) for one symbolic
+// 64-bit base and a concrete small pattern with many equal values, so that the pending-index queue is far longer
+// than any small-input special case of a library sort (a dozen entries) while the comparisons stay decidable
+// without forking. Asserts sortedness, exactly-once, and file order among ALL pairs of equal-time messages of one
+// chunk (not only adjacent ones), and repeatability.
+// params: n, per, pat (0: 2,1,0,2,1,0..; 1: all equal; 2: 0,1,0,1..; 3: 1,1,1,5x8,9,9,9 | 3,5x7,7,9,9,9), rev
+func VC03Ties() {
+	n, per, pat, rev := vParam("n"), vParam("per"), vParam("pat"), vParam("rev")
+	base := vSymU64("base")
+	vAssume(base < ^uint64(0)-16)
+	two := []uint64{1, 1, 1, 5, 5, 5, 5, 5, 5, 5, 5, 9, 9, 9, 3, 5, 5, 5, 5, 5, 5, 5, 7, 9, 9, 9}
+	vMultiChunkTime = func(i int) uint64 {
+		switch pat {
+		case 0:
+			return base + uint64(2-i%3)
+		case 1:
+			return base
+		case 2:
+			return base + uint64(i%2)
+		}
+		return base + two[i%len(two)]
+	}
+	w, file, msgs := vMultiChunk(n, per, 2, 0)
+	vMultiChunkTime = nil
+	chunkOf := vChunkOf(w, msgs)
+	order := LogTimeOrder
+	if rev == 1 {
+		order = ReverseLogTimeOrder
+	}
+	var first []int
+	for round := 0; round < 2; round++ {
+		r, err := NewReader(vNewSource(file))
+		vAssert(err == nil, "NewReader")
+		it, err := r.Messages(InOrder(order))
+		vAssert(err == nil, "Messages(InOrder)")
+		seen := make([]bool, n)
+		var got []int
+		for {
+			_, _, m, err := it.NextInto(nil)
+			if err != nil {
+				vAssert(err == io.EOF, "ends with EOF")
+				break
+			}
+			tag := int(m.Sequence)
+			vAssert(tag >= 0 && tag < n, "tag in range")
+			vAssert(!seen[tag], "message returned once")
+			seen[tag] = true
+			vAssert(m.LogTime == msgs[tag].LogTime, "message carries its own time")
+			if len(got) > 0 {
+				last := msgs[got[len(got)-1]].LogTime
+				if rev == 0 {
+					vAssert(m.LogTime >= last, "non-decreasing log time")
+				} else {
+					vAssert(m.LogTime <= last, "non-increasing log time")
+				}
+			}
+			got = append(got, tag)
+		}
+		vAssert(len(got) == n, "every message returned")
+		for i := 0; i < len(got); i++ {
+			for j := i + 1; j < len(got); j++ {
+				a, b := got[i], got[j]
+				if chunkOf[a] != chunkOf[b] {
+					continue
+				}
+				if rev == 0 {
+					vAssert(vImplies(msgs[a].LogTime == msgs[b].LogTime, a < b), "ties keep file order (any two messages of a chunk)")
+				} else {
+					vAssert(vImplies(msgs[a].LogTime == msgs[b].LogTime, a > b), "ties keep reverse file order (any two messages of a chunk)")
+				}
+			}
+		}
+		if round == 0 {
+			first = got
+		} else {
+			for i := range got {
+				vAssert(first[i] == got[i], "repeated read gives the same sequence")
+			}
+		}
 	}
 	vReach("end")
 }
